@@ -1053,11 +1053,29 @@ impl<'a> Binder<'a> {
             })));
         }
 
-        Ok(LogicalPlan::Union(crate::planner::UnionNode {
+        let union = LogicalPlan::Union(crate::planner::UnionNode {
             inputs: branches,
             schema: PlanSchema::new(union_schema_fields.expect("at least one set")),
             all: true,
-        }))
+        });
+        // SELECT DISTINCT: the caller returns from here before its own DISTINCT
+        // step, so duplicate rows of the union (repeated sets, or sets that
+        // coincide on the selected columns) used to survive.
+        match &select.distinct {
+            None => Ok(union),
+            Some(ast::Distinct::Distinct) => {
+                crate::planner::vector_types::require_scalar_row(&union.schema(), "DISTINCT")?;
+                Ok(LogicalPlan::Distinct(DistinctNode {
+                    input: Arc::new(union),
+                }))
+            }
+            Some(ast::Distinct::On(_)) => Err(QueryError::NotImplemented(
+                "DISTINCT ON not supported".to_string(),
+            )),
+            Some(ast::Distinct::All) => Err(QueryError::NotImplemented(
+                "DISTINCT ALL not supported".to_string(),
+            )),
+        }
     }
 
     fn bind_from(&mut self, from: &[ast::TableWithJoins]) -> Result<LogicalPlan> {
